@@ -1,0 +1,120 @@
+//go:build verif
+
+package checker
+
+import (
+	"crypto/sha256"
+	"fmt"
+	"sort"
+	"strings"
+
+	"github.com/elk-language/elk/types"
+)
+
+// VerifC27EnvLines lists, in a canonical order, every component of the checker state that a later
+// REPL input can observe: all namespaces reachable from Root (kind, superclass/parent chain,
+// constants, subtypes, methods with full signatures, instance variables), the stack of local
+// environments (name, declared type, initialised, single assignment), and the constant / method
+// scope stacks. Used only by the verification harness (property C27).
+func VerifC27EnvLines(c *Checker) []string {
+	var lines []string
+	seen := make(map[types.Namespace]bool)
+	var walk func(path string, ns types.Namespace)
+	walk = func(path string, ns types.Namespace) {
+		if ns == nil || seen[ns] {
+			return
+		}
+		seen[ns] = true
+		head := fmt.Sprintf("N %s kind=%T", path, ns)
+		var chain []string
+		for p := ns.Parent(); p != nil; p = p.Parent() {
+			chain = append(chain, types.I(p))
+			if len(chain) > 64 {
+				break
+			}
+		}
+		lines = append(lines, head+" parents="+strings.Join(chain, "<"))
+		for name, con := range ns.Constants() {
+			lines = append(lines, fmt.Sprintf("C %s::%s : %s", path, name.String(), types.I(con.Type)))
+		}
+		for name, m := range ns.Methods() {
+			lines = append(lines, fmt.Sprintf("M %s.%s : %s", path, name.String(), m.InspectSignature(true)))
+		}
+		for name, iv := range ns.InstanceVariables() {
+			lines = append(lines, fmt.Sprintf("I %s@%s : %s", path, name.String(), types.I(iv.Type)))
+		}
+		for name, sub := range ns.Subtypes() {
+			lines = append(lines, fmt.Sprintf("S %s::%s = %s", path, name.String(), types.I(sub.Type)))
+			if child, ok := sub.Type.(types.Namespace); ok {
+				walk(path+"::"+name.String(), child)
+				if sc := child.Singleton(); sc != nil {
+					walk(path+"::"+name.String()+"&", sc)
+				}
+			}
+		}
+	}
+	walk("", c.runtimeEnv.Root)
+
+	for i, env := range c.localEnvs {
+		parent := -1
+		if env.parent != nil {
+			parent = env.parent.index
+		}
+		lines = append(lines, fmt.Sprintf("E %d index=%d parent=%d typ=%d", i, env.index, parent, env.typ))
+		for name, l := range env.locals {
+			lines = append(lines, fmt.Sprintf("L %d %s : %s init=%t single=%t shadow=%t", i, name.String(), types.I(l.typ), l.initialised, l.singleAssignment, l.shadowOf != nil))
+		}
+	}
+	for i, s := range c.constantScopes {
+		lines = append(lines, fmt.Sprintf("KS %d %s kind=%d", i, types.I(s.container), s.kind))
+	}
+	for i, s := range c.methodScopes {
+		lines = append(lines, fmt.Sprintf("MS %d %s kind=%d", i, types.I(s.container), s.kind))
+	}
+	lines = append(lines, "SELF "+types.I(c.selfType))
+	sort.Strings(lines)
+	return lines
+}
+
+// VerifC27EnvDigest is the SHA-256 of VerifC27EnvLines.
+func VerifC27EnvDigest(c *Checker) string {
+	h := sha256.New()
+	for _, l := range VerifC27EnvLines(c) {
+		h.Write([]byte(l))
+		h.Write([]byte{'\n'})
+	}
+	return fmt.Sprintf("%x", h.Sum(nil)[:12])
+}
+
+// VerifC27SameRoot reports whether every scope of the checker points into the checker's current
+// global environment (after a rollback the scopes must not keep pointing into the discarded one).
+func VerifC27ScopesInEnv(c *Checker) bool {
+	reach := make(map[types.Namespace]bool)
+	var walk func(ns types.Namespace)
+	walk = func(ns types.Namespace) {
+		if ns == nil || reach[ns] {
+			return
+		}
+		reach[ns] = true
+		for _, sub := range ns.Subtypes() {
+			if child, ok := sub.Type.(types.Namespace); ok {
+				walk(child)
+				if sc := child.Singleton(); sc != nil {
+					walk(sc)
+				}
+			}
+		}
+	}
+	walk(c.runtimeEnv.Root)
+	for _, s := range c.constantScopes {
+		if !reach[s.container] {
+			return false
+		}
+	}
+	for _, s := range c.methodScopes {
+		if !reach[s.container] {
+			return false
+		}
+	}
+	return true
+}
